@@ -26,7 +26,7 @@ from mc.ref import crosscheck as X
 
 ID = "C07"
 LEVEL = "exploration"
-BUDGET = {"quick": 300, "thorough": 900}
+BUDGET = {"quick": 300, "thorough": 3600}
 CHUNK = 4
 RULE = (
     "cases = blocks of row pairs: for every left row index i a stack of ALL right rows k, paired with left row "
